@@ -88,6 +88,10 @@ class World(object):
             "maxsmt p:1 !p:3 q:2 real": lambda: self._maxsmt([(self.p, 1), (m.Not(self.p), 3), (self.q, 2)], True),
             "maxsmt i>0:2 p:1 int": lambda: self._maxsmt([(m.GT(self.i, m.Int(0)), 2), (self.p, 1)], False),
             "maxsmt x<y:1 p:2 int": lambda: self._maxsmt([(m.BVULT(self.x, self.y), 1), (self.p, 2)], False),
+            # negative weights, in both polarities (the first model of the search is all-false): the
+            # optimum exceeds the sum of the weights
+            "maxsmt p:5 q:-3 int": lambda: self._maxsmt([(self.p, 5), (self.q, -3)], False),
+            "maxsmt !p:5 !q:-3 real": lambda: self._maxsmt([(m.Not(self.p), 5), (m.Not(self.q), -3)], True),
         }
         return G[name]()
 
@@ -100,7 +104,8 @@ class World(object):
 
 GOALS_SINGLE = ["min i", "max i", "min i+j", "max i-j", "min x", "max x", "max x+y", "min x&y", "min x signed",
                 "max x signed", "minmax i j", "maxmin i j", "minmax x y", "maxmin x y signed",
-                "maxsmt p:1 q:2 int", "maxsmt p:1 !p:3 q:2 real", "maxsmt i>0:2 p:1 int", "maxsmt x<y:1 p:2 int"]
+                "maxsmt p:1 q:2 int", "maxsmt p:1 !p:3 q:2 real", "maxsmt i>0:2 p:1 int", "maxsmt x<y:1 p:2 int",
+                "maxsmt p:5 q:-3 int", "maxsmt !p:5 !q:-3 real"]
 GOAL_PAIRS = [("min i", "max j*"), ("max x", "min x&y"), ("min x signed", "max y signed"), ("max i", "min i+j"),
               ("min x", "max i"), ("max x+y", "max x signed"), ("minmax i j", "max i-j")]
 
